@@ -444,6 +444,37 @@ fn origin_form_case(idx: u64, rec: &mut Rec) {
     }
 }
 
+/// A Location that is text and cannot be resolved to a URI with a host is an error whatever the method and the
+/// status - also where the table of C15 would not follow the redirect anyway.
+fn unresolvable_case(idx: u64, rec: &mut Rec) {
+    let method = ["GET", "POST", "PUT", "DELETE", "HEAD", "PATCH"][(idx % 6) as usize];
+    let status = [301u16, 302, 303, 307, 308][(idx / 6 % 5) as usize];
+    let loc: &[u8] = [&b"mailto:x@y.test"[..], b"http:y.test/x", b"/\\y.test", b"http://[::1", b"http://a b/", b"//", b"https:///y.test/", b"http://a.test:99999/"][(idx / 30 % 8) as usize];
+    let cfg = ReqCfg::new(method, "http://a.test/x");
+    let f = match fast_to_recv(&cfg) {
+        Ok(f) => f,
+        Err(e) => return rec.fail("C14/setup", e),
+    };
+    let mut h = RespHead::new(false, status);
+    h.fields.push(Field::new("Location", loc));
+    h.fields.push(Field::new("Content-Length", b"0"));
+    rec.call();
+    match fast_response(f, &h.render()) {
+        Ok((End::Redirect(mut r), ..)) => {
+            let res = guarded(move || r.as_new_flow(RedirectAuthHeaders::Never).map(|o| o.map(|f| f.uri().to_string())));
+            rec.ev(|| format!("{} answered {} Location {:?}: as_new_flow -> {:?}", method, status, esc(loc), res));
+            rec.cov(&format!("unresolvable/{}", if matches!(status, 307 | 308) && matches!(method, "POST" | "PUT" | "DELETE" | "PATCH") { "where-the-table-would-not-follow" } else { "where-the-table-follows" }));
+            match res {
+                Err((l, m)) => rec.fail(&format!("C14/{}", panic_sig(&l, &m)), format!("{} at {}", m, l)),
+                Ok(Err(_)) => {}
+                Ok(Ok(v)) => rec.fail("C14/unresolvable-location-not-an-error", format!("{} {} Location {:?}: as_new_flow -> Ok({:?}), no error is reported", method, status, esc(loc), v)),
+            }
+        }
+        Ok(_) => rec.fail("C14/no-redirect-state", "3xx did not reach the redirect state".into()),
+        Err(e) => rec.fail("C14/setup", e),
+    }
+}
+
 fn missing_case(idx: u64, rec: &mut Rec) {
     // missing / non-textual Location must be an error; with several fields the LAST one counts,
     // so a textual field before a non-textual last one must not be followed either
@@ -559,6 +590,7 @@ impl Property for P {
         vec![
             Workload::new("chains", tier.pick(20_000, 8_000_000), false, "random clean chains, URI compared at every hop"),
             Workload::new("wire", tier.pick(5_000, 2_000_000), false, "request line and Host of every intermediate hop"),
+            Workload::new("unresolvable", 6 * 5 * 8, true, "6 methods x 5 statuses x 8 textual Locations without a resolvable host: an error in every cell"),
             Workload::new("apostrophe", 72, true, "3 bases x 8 Locations with an apostrophe in query or path (and controls) x 3 statuses: path and query must arrive as they stand"),
             Workload::new("hostile", ((HOSTILE.len() + LONG_NON_TEXTUAL) * 6) as u64, true, "hostile Locations (61 hand-picked + 56 long non-textual ones around 256 bytes) x 3 bases x met on the first or on the second hop"),
             Workload::new("origin-form", 6 * 12 * 3 * 3, true, "requests in origin-form and authority-form (http:80, https:443, a.test:443) with the Host spelled out x 12 Locations x 3 methods x 3 statuses: no absolute base to resolve against"),
@@ -573,6 +605,7 @@ impl Property for P {
             "wire" => wire_case(&mut rng, rec),
             "hostile" => hostile_case(idx, rec),
             "apostrophe" => apostrophe_case(idx, rec),
+            "unresolvable" => unresolvable_case(idx, rec),
             "origin-form" => origin_form_case(idx, rec),
             "partial-two-locations" => partial_locations_case(idx, rec),
             _ => missing_case(idx, rec),
